@@ -7,5 +7,5 @@ open UtilModel
 def main (args : List String) : IO UInt32 :=
   driverMain [
     mkEntry "keyed" Keyed.model Keyed.Obs.parse
-      [MonEntry.ofMonitor "C06" Keyed.monC06, MonEntry.ofMonitor "C07" Keyed.monC07, MonEntry.ofMonitor "C07a" Keyed.monC07a, MonEntry.ofMonitor "C06o" Keyed.monC06o, MonEntry.ofMonitor "C07c" Keyed.monC07c] (cap := 3000)
+      [MonEntry.ofMonitor "C06" Keyed.monC06, MonEntry.ofMonitor "C07" Keyed.monC07, MonEntry.ofMonitor "C07a" Keyed.monC07a, MonEntry.ofMonitor "C06o" Keyed.monC06o, MonEntry.ofMonitor "C07c" Keyed.monC07c, MonEntry.ofMonitor "C07b" Keyed.monC07b] (cap := 3000)
   ] args
